@@ -29,6 +29,7 @@ type LoopSpec struct {
 }
 
 type AssertSpec struct {
+	Optional bool
 	Ghost  string
 	Anchor string
 	C      Clause
@@ -54,6 +55,7 @@ type Contract struct {
 	Uses     []string
 	Deterministic bool
 	Stored   []AssertSpec
+	CallSites []AssertSpec
 	Writes   []string
 	Opts     map[string]string
 	File     string
@@ -439,7 +441,14 @@ func (c *Contract) addClause(kw, rest, path string, line int) error {
 		}
 		c.Asserts = append(c.Asserts, AssertSpec{Anchor: anchor, C: Clause{Label: ce.Fn, E: e, Src: call, File: path, Line: line}, Apply: true})
 	case "assert", "assume":
-		// assert at "anchor" expr
+		// assert at "anchor" expr      - the anchor must occur in the function
+		// assert at* "anchor" expr     - for every line that contains the anchor, if any (a discipline on
+		//                                 statements of a certain shape, e.g. every direct Read of a connection)
+		optional := false
+		if strings.HasPrefix(rest, "at* ") {
+			optional = true
+			rest = "at " + rest[4:]
+		}
 		if !strings.HasPrefix(rest, "at ") {
 			return fmt.Errorf("assert at \"anchor\" expr")
 		}
@@ -459,7 +468,26 @@ func (c *Contract) addClause(kw, rest, path string, line int) error {
 		if cl.Label == "" {
 			cl.Label = fmt.Sprintf("a%d", len(c.Asserts)+1)
 		}
-		c.Asserts = append(c.Asserts, AssertSpec{Anchor: anchor, C: cl, Assume: kw == "assume"})
+		c.Asserts = append(c.Asserts, AssertSpec{Anchor: anchor, C: cl, Assume: kw == "assume", Optional: optional})
+	case "callsite":
+		// callsite "F" label: expr - at every call to F in this function expr holds; arg0, arg1, ... are
+		// the call's arguments (the receiver first for methods, excluded for interface calls)
+		r := strings.TrimSpace(rest)
+		if !strings.HasPrefix(r, "\"") {
+			return fmt.Errorf("callsite \"F\" expr")
+		}
+		j := strings.Index(r[1:], "\"")
+		if j < 0 {
+			return fmt.Errorf("unterminated function name")
+		}
+		cl, err := mkClause(strings.TrimSpace(r[j+2:]), path, line, true)
+		if err != nil {
+			return err
+		}
+		if cl.Label == "" {
+			cl.Label = fmt.Sprintf("c%d", len(c.CallSites)+1)
+		}
+		c.CallSites = append(c.CallSites, AssertSpec{Anchor: r[1 : 1+j], C: cl})
 	default:
 		return fmt.Errorf("unknown clause keyword %q", kw)
 	}
